@@ -89,6 +89,8 @@ type SyncObs struct {
 	Delivered      []uint64    `json:"delivered"` // blocks that reached the syncer and passed Validate, in order
 	Ending         string      `json:"ending"`    // ok | err | invalid
 	Links          [][2]uint64 `json:"links"`     // (parent code, block code) of every honest block: the validity oracle
+	FinAt          [][2]uint64 `json:"finat"`     // (block code, finalized height of its node right after the block was applied): finality as a function of the chain
+	FinAfter       uint32      `json:"finafter"`  // our stored finalized height after the sync
 	Err            string      `json:"err"`       // "" = Sync returned nil
 	Banned         bool        `json:"banned"`
 	TempAfter      [][2]uint64 `json:"tempafter"`        // (height, code) of A's temp blocks afterwards
@@ -218,7 +220,7 @@ func runSyncAll(spec SyncSpec, pre, after func(a *exh.Node)) (out []SyncObs) {
 		return res
 	}
 	cd := &coder{m: map[string]uint64{}}
-	a, b, c, links, err := buildChains(spec, cd)
+	a, b, c, links, finat, err := buildChains(spec, cd)
 	if a != nil {
 		defer a.DB.Close()
 	}
@@ -233,6 +235,7 @@ func runSyncAll(spec SyncSpec, pre, after func(a *exh.Node)) (out []SyncObs) {
 		return nil
 	}
 	obs.Links = links
+	obs.FinAt = finat
 	link := func(blk *blockchain.Block) {
 		obs.Links = append(obs.Links, [2]uint64{cd.of(blk.Header.PreviousBlockID), cd.of(blk.Header.ID)})
 	}
@@ -474,12 +477,14 @@ func runSyncAll(spec SyncSpec, pre, after func(a *exh.Node)) (out []SyncObs) {
 					return out
 				}
 				link(blk)
+				f2, _ := a.Finalized()
+				obs.FinAt = append(obs.FinAt, [2]uint64{cd.of(blk.Header.ID), uint64(f2)})
 			}
 			if bannedBefore { // the first sync banned the peer: no second sync with it
 				return out
 			}
 		}
-		obs = SyncObs{Spec: spec, Phase: ph + 1, Before: []uint64{}, After: []uint64{}, Delivered: []uint64{}, Links: obs.Links, TempAfter: [][2]uint64{}}
+		obs = SyncObs{Spec: spec, Phase: ph + 1, Before: []uint64{}, After: []uint64{}, Delivered: []uint64{}, Links: obs.Links, FinAt: obs.FinAt, TempAfter: [][2]uint64{}}
 		sc, served, stream, common, firstSeg = script, 0, nil, nil, nil
 		fin, err := a.Finalized()
 		if err != nil {
@@ -609,6 +614,7 @@ func runSyncAll(spec SyncSpec, pre, after func(a *exh.Node)) (out []SyncObs) {
 		// finalized height (never rolled back, key 1b) which prunes the state diffs (prefix 33) at or below it
 		dumpAfterKV := a.Dump()
 		finAfter, _ := a.Finalized()
+		obs.FinAfter = finAfter
 		present := map[string]bool{}
 		for _, kv := range dumpAfterKV {
 			present[kv.K] = true
@@ -645,8 +651,12 @@ func runSyncAll(spec SyncSpec, pre, after func(a *exh.Node)) (out []SyncObs) {
 }
 
 // buildChains creates node A (prefix + own fork), the best peer B (prefix + peer fork) and, if asked, the sender C.
-func buildChains(spec SyncSpec, cd *coder) (a, b, c *exh.Node, links [][2]uint64, err error) {
-	links = [][2]uint64{}
+func buildChains(spec SyncSpec, cd *coder) (a, b, c *exh.Node, links, finat [][2]uint64, err error) {
+	links, finat = [][2]uint64{}, [][2]uint64{}
+	fin := func(n *exh.Node, blk *blockchain.Block) {
+		f, _ := n.Finalized()
+		finat = append(finat, [2]uint64{cd.of(blk.Header.ID), uint64(f)})
+	}
 	a, err = exh.New(exh.Options{N: spec.N, GenesisTime: spec.genesisTime})
 	if err != nil {
 		return
@@ -684,6 +694,7 @@ func buildChains(spec SyncSpec, cd *coder) (a, b, c *exh.Node, links [][2]uint64
 			}
 		}
 		link(blk)
+		fin(a, blk)
 	}
 	for i := 0; i < spec.Own; i++ {
 		blk := nextBlock(a, ownFull, 0)
@@ -698,6 +709,7 @@ func buildChains(spec SyncSpec, cd *coder) (a, b, c *exh.Node, links [][2]uint64
 			}
 		}
 		link(blk)
+		fin(a, blk)
 	}
 	for i := 0; i < spec.Peer; i++ {
 		extra := 0
@@ -713,6 +725,7 @@ func buildChains(spec SyncSpec, cd *coder) (a, b, c *exh.Node, links [][2]uint64
 			return
 		}
 		link(blk)
+		fin(b, blk)
 	}
 	if c != nil {
 		for i := 0; i < spec.SenderOwn; i++ {
@@ -726,6 +739,7 @@ func buildChains(spec SyncSpec, cd *coder) (a, b, c *exh.Node, links [][2]uint64
 				return
 			}
 			link(blk)
+			fin(c, blk)
 		}
 	}
 	return
@@ -735,7 +749,7 @@ func buildChains(spec SyncSpec, cd *coder) (a, b, c *exh.Node, links [][2]uint64
 func measureSlots(spec SyncSpec) (int, error) {
 	cd := &coder{m: map[string]uint64{}}
 	spec.genesisTime = 0
-	a, b, c, _, err := buildChains(spec, cd)
+	a, b, c, _, _, err := buildChains(spec, cd)
 	last := 0
 	for _, n := range []*exh.Node{a, b, c} {
 		if n != nil {
